@@ -334,6 +334,8 @@ int main(int argc, char** argv) {
   std::string line;
   while (std::getline(std::cin, line)) {
     g_case_start_ms = now_ms();
+    if (const char* z = getenv("C08_TEST_SLEEP_MS"))   // self-test of the watchdog only
+      if (line.find(" 53 78 ") != std::string::npos) std::this_thread::sleep_for(std::chrono::milliseconds(atoll(z)));
     auto t = split_ws(line);
     std::string res;
     try {
